@@ -209,54 +209,67 @@ Definition add_max_dur (name : string) (n : nat) (dt : vec) (md : Q) (I : list n
   {| ap_lp := Build_lp (lp_c P ++ repeat 0 n) (lp_l P ++ repeat 0 n) (lp_u P ++ repeat 1 n) (rows1 ++ flat_map win (seq 0 n));
      ap_map := ap_map a ++ bool_rows name "bool_2" m I |}.
 
+(* named pieces of the storage problem (used by the proofs in StorageProofs.v) *)
+Definition st_sep (p : storage_p) : bool :=
+  negb (Qeq_bool (sp_eff p) 1) || negb (Qeq_bool (sp_cost_in p) 0) || negb (Qeq_bool (sp_cost_out p) 0) ||
+  Nat.eqb (List.length (sp_nodes p)) 2.
+Definition st_inflow (p : storage_p) (dt : vec) : vec := cumsum (map (fun d => Qred (sp_inflow p * d)) dt).
+Definition st_arow (p : storage_p) (n i : nat) : srow :=
+  if st_sep p then tril_row 0 i (- sp_eff p) ++ tril_row n i (-1) else tril_row 0 i (-1).
+(* right-hand sides: assets.py:402-406 *)
+Definition st_bup (p : storage_p) (n : nat) (dt : vec) (i : nat) : Q :=
+  if Nat.eqb (S i) n then Qred (sp_end p - sp_start p - nth i (st_inflow p dt) 0)
+  else Qred (sp_size p - sp_start p - nth i (st_inflow p dt) 0).
+Definition st_blo (p : storage_p) (n : nat) (dt : vec) (i : nat) : Q :=
+  if Nat.eqb (S i) n then Qred (sp_end p - sp_start p - nth i (st_inflow p dt) 0)
+  else Qred (- sp_start p - nth i (st_inflow p dt) 0).
+Definition st_rows (p : storage_p) (n : nat) (dt : vec) : list crow :=
+  map (fun i => {| r_a := st_arow p n i; r_t := RU; r_b := st_bup p n dt i |}) (seq 0 n) ++
+  map (fun i => {| r_a := st_arow p n i; r_t := RL; r_b := st_blo p n dt i |}) (seq 0 n).
+Definition st_l (p : storage_p) (n : nat) (dt : vec) : vec :=
+  let cp := map (fun d => Qred (sp_cap_in p * d)) dt in
+  if st_sep p then vneg cp ++ repeat 0 n else vneg cp.
+Definition st_u (p : storage_p) (n : nat) (dt : vec) : vec :=
+  let ct := map (fun d => Qred (sp_cap_out p * d)) dt in
+  if st_sep p then repeat 0 n ++ ct else ct.
+Definition st_c (p : storage_p) (n : nat) (dt disc : vec) (price : option vec) : vec :=
+  let cs := if Qeq_bool (sp_cost_store p) 0 then None
+            else Some (tails_sum (vmul (map (fun d => Qred (sp_cost_store p * d)) dt) disc)) in
+  if st_sep p then
+    let c0 := repeat (- sp_cost_in p) n in
+    let c1 := repeat (sp_cost_out p) n in
+    let c0 := match price with Some q => vsubq c0 q | None => c0 end in
+    let c1 := match price with Some q => vsubq c1 q | None => c1 end in
+    let c0 := vmul c0 disc in let c1 := vmul c1 disc in
+    let c0 := match cs with Some s => vsubq c0 (map (fun v => Qred (v * sp_eff p)) s) | None => c0 end in
+    let c1 := match cs with Some s => vsubq c1 s | None => c1 end in
+    c0 ++ c1
+  else
+    let c0 := repeat 0 n in
+    let c0 := match price with Some q => vsubq c0 (vmul q disc) | None => c0 end in
+    match cs with Some s => vsubq c0 s | None => c0 end.
+Definition st_map (p : storage_p) (n : nat) (I : list nat) : list mrow :=
+  let two_nodes := Nat.eqb (List.length (sp_nodes p)) 2 in
+  let n0 := hd ""%string (sp_nodes p) in
+  let n1 := nth 1 (sp_nodes p) n0 in
+  if st_sep p then
+    mk_rows (sp_name p) (Some n0) "d" "disp_in" 0 (ones n) I ++
+    mk_rows (sp_name p) (Some (if two_nodes then n1 else n0)) "d" "disp_out" n (ones n) I
+  else mk_rows (sp_name p) (Some n0) "d" "disp" 0 (ones n) I.
+
 Definition storage (g : grid) (rg : rgrid) (p : storage_p) : option aprob :=
   let n := rg_T rg in
   if Nat.eqb n 0 then Some {| ap_lp := Build_lp [] [] [] []; ap_map := [] |} else
   let dt := rg_dt rg in
   let ct := map (fun d => Qred (sp_cap_out p * d)) dt in
   let cp := map (fun d => Qred (sp_cap_in p * d)) dt in
-  let inflow := cumsum (map (fun d => Qred (sp_inflow p * d)) dt) in
-  let disc := rg_disc rg in
   let pr := match sp_price p with
             | Some v => if Nat.eqb (List.length v) (g_T g) then Some (Some (price_vec rg v)) else None
             | None => Some None end in
   match pr with None => None | Some price =>
-  let two_nodes := Nat.eqb (List.length (sp_nodes p)) 2 in
-  let sep := negb (Qeq_bool (sp_eff p) 1) || negb (Qeq_bool (sp_cost_in p) 0) || negb (Qeq_bool (sp_cost_out p) 0) || two_nodes in
-  let cs := if Qeq_bool (sp_cost_store p) 0 then None
-            else Some (tails_sum (vmul (map (fun d => Qred (sp_cost_store p * d)) dt) disc)) in
-  let n0 := hd ""%string (sp_nodes p) in
-  let n1 := nth 1 (sp_nodes p) n0 in
-  let P0 : lp :=
-    if sep then
-      let c0 := repeat (- sp_cost_in p) n in
-      let c1 := repeat (sp_cost_out p) n in
-      let c0 := match price with Some q => vsubq c0 q | None => c0 end in
-      let c1 := match price with Some q => vsubq c1 q | None => c1 end in
-      let c0 := vmul c0 disc in let c1 := vmul c1 disc in
-      let c0 := match cs with Some s => vsubq c0 (map (fun v => Qred (v * sp_eff p)) s) | None => c0 end in
-      let c1 := match cs with Some s => vsubq c1 s | None => c1 end in
-      Build_lp (c0 ++ c1) (vneg cp ++ repeat 0 n) (repeat 0 n ++ ct) []
-    else
-      let c0 := repeat 0 n in
-      let c0 := match price with Some q => vsubq c0 (vmul q disc) | None => c0 end in
-      let c0 := match cs with Some s => vsubq c0 s | None => c0 end in
-      Build_lp c0 (vneg cp) ct [] in
-  (* level rows *)
-  let b_up := set_last (map (fun f => Qred (sp_size p - sp_start p - f)) inflow)
-                       (Qred (sp_end p - sp_start p - last inflow 0)) in
-  let b_lo := set_last (map (fun f => Qred (- sp_start p - f)) inflow)
-                       (Qred (sp_end p - sp_start p - last inflow 0)) in
-  let arow i := if sep then tril_row 0 i (- sp_eff p) ++ tril_row n i (-1) else tril_row 0 i (-1) in
-  let rows_up := map (fun ib => {| r_a := arow (fst ib); r_t := RU; r_b := snd ib |}) (combine (seq 0 n) b_up) in
-  let rows_lo := map (fun ib => {| r_a := arow (fst ib); r_t := RL; r_b := snd ib |}) (combine (seq 0 n) b_lo) in
-  let mp0 :=
-    if sep then
-      mk_rows (sp_name p) (Some n0) "d" "disp_in" 0 (ones n) (rg_I rg) ++
-      mk_rows (sp_name p) (Some (if two_nodes then n1 else n0)) "d" "disp_out" n (ones n) (rg_I rg)
-    else mk_rows (sp_name p) (Some n0) "d" "disp" 0 (ones n) (rg_I rg) in
-  let a0 := {| ap_lp := Build_lp (lp_c P0) (lp_l P0) (lp_u P0) (rows_up ++ rows_lo); ap_map := mp0 |} in
-  let a1 := if sp_no_simult p && sep then add_no_simult (sp_name p) n cp ct (rg_I rg) a0 else a0 in
+  let a0 := {| ap_lp := Build_lp (st_c p n dt (rg_disc rg) price) (st_l p n dt) (st_u p n dt) (st_rows p n dt);
+               ap_map := st_map p n (rg_I rg) |} in
+  let a1 := if sp_no_simult p && st_sep p then add_no_simult (sp_name p) n cp ct (rg_I rg) a0 else a0 in
   let a2 := match sp_max_dur p with Some md => add_max_dur (sp_name p) n dt md (rg_I rg) a1 | None => a1 end in
   match extend_minor (g_dt g) rg (ap_map a2) with
   | Some mp' => Some {| ap_lp := ap_lp a2; ap_map := mp' |}
